@@ -199,8 +199,11 @@ func (g *seqGen) randomOp(recent *[]plan.Op) {
 			op.Buf, op.E = id, hx(g.bufs[id])
 		} else {
 			op.E = hx(r.Bytes(size))
-			if r.Intn(2) == 0 {
+			switch r.Intn(3) {
+			case 0:
 				op.Cap = 1 + r.Intn(24) // spare capacity behind the slice, watched for writes
+			case 1:
+				op.Arena = true // the caller recycles its buffer: new content, same backing array
 			}
 		}
 	case k < 50: // CheckMnemonic / IsMnemonicValid on valid and defective sentences
@@ -290,6 +293,10 @@ func (g *seqGen) memoHunt(rounds int) {
 			{Fn: "enc", L: int64(l), E: hx(ent), Keep: true, Cap: 8},
 			{Fn: "enc", L: int64(l2), E: hx(ent), Keep: true},
 			{Fn: "enc", L: int64(l), E: hx(append(append([]byte(nil), ent[:len(ent)-1]...), ent[len(ent)-1]^1)), Keep: true},
+			// a caller recycling one buffer: three contents in the same backing array
+			{Fn: "enc", L: int64(l), E: hx(ent), Arena: true, Keep: true},
+			{Fn: "enc", L: int64(l), E: hx(append([]byte{ent[0] ^ 0x80}, ent[1:]...)), Arena: true, Keep: true},
+			{Fn: "enc", L: int64(l2), E: hx(ent), Arena: true, Keep: true},
 			{Fn: "seed", S: hxs(s), P: hxs("p"), Keep: true},
 			{Fn: "seed", S: hxs(s), P: hxs("p"), Keep: true},
 			{Fn: "seed", S: hxs(s), P: hxs("q"), Keep: true},
@@ -317,7 +324,7 @@ func (g *seqGen) memoHunt(rounds int) {
 
 // soloKey identifies a call independently of its position.
 func soloKey(op plan.Op) string {
-	op.I, op.Keep, op.Buf, op.Cap = 0, false, 0, 0
+	op.I, op.Keep, op.Buf, op.Cap, op.Arena = 0, false, 0, 0, false
 	b, _ := json.Marshal(&op)
 	return string(b)
 }
